@@ -219,9 +219,44 @@ fn calculate_selection<'a>(
                         }
                     }
 
+                    let several_selections = variant_selections.len() > 1;
+
                     for (_selection_id, selection, variant_selection) in variant_selections {
                         match variant_selection {
                             VariantSelection::InlineFragment(_) => {
+                                // When other selections contribute to the same variant struct, an
+                                // inline fragment that only contains a fragment spread must not
+                                // turn the whole struct into an alias of that fragment.
+                                let lone_spread = match selection.subselection() {
+                                    [id] if several_selections => {
+                                        match context.query.query.get_selection(*id) {
+                                            Selection::FragmentSpread(fragment_id) => {
+                                                Some(*fragment_id)
+                                            }
+                                            _ => None,
+                                        }
+                                    }
+                                    _ => None,
+                                };
+
+                                if let Some(fragment_id) = lone_spread {
+                                    let fragment = context.query.query.get_fragment(fragment_id);
+                                    context.push_field(ExpandedField {
+                                        field_type: fragment.name.as_str().into(),
+                                        field_type_qualifiers: &[GraphqlTypeQualifier::Required],
+                                        flatten: true,
+                                        graphql_name: None,
+                                        rust_name: fragment.name.to_snake_case().into(),
+                                        struct_id,
+                                        deprecation: None,
+                                        boxed: fragment_is_recursive(
+                                            fragment_id,
+                                            context.query.query,
+                                        ),
+                                    });
+                                    continue;
+                                }
+
                                 calculate_selection(
                                     context,
                                     selection.subselection(),
